@@ -52,7 +52,15 @@ THEOREMS = [
     "GitAi.Redact.no_flagged_token_survives",
     "GitAi.Redact.redaction_idempotent",
     "GitAi.Redact.runsOf_exact",
+    "GitAi.Redact.json_traversal_tie",
+    "GitAi.Redact.redactJson_spec",
+    "GitAi.Redact.redactJson_no_panic",
+    "GitAi.Redact.redactJson_masks_every_string",
+    "GitAi.Redact.redactJson_preserves_shape",
+    "GitAi.Redact.json_key_collision_witness",
+    "GitAi.Redact.notes_mode_masks_all_messages",
     "GitAi.Redact.notes_mode_masks_all_text_messages",
+    "GitAi.Redact.tool_use_input_redacted",
     "GitAi.Redact.all_notes_masked",
     "GitAi.Redact.all_notes_masked_current",
 ]
@@ -81,7 +89,8 @@ def phase_extract(res):
     res.obligation("extract StorageModeTable", True, "extraction")
     res.extra["storage_mode_table"] = {
         "writers": [{k: r[k] for k in ("name", "file", "target", "reads_wl", "filters")} for r in x["rows"]],
-        "policy": x["policy"], "enqueue_shape": x["shape"], "constants": x["consts"], "redacted_kinds": x["kinds"], "skipped_kinds": x["skipped"]}
+        "policy": x["policy"], "enqueue_shape": x["shape"], "constants": x["consts"], "redacted_kinds": x["kinds"], "skipped_kinds": x["skipped"],
+        "json_kinds": x["json_kinds"], "json_shape": x["json_shape"]}
     return x
 
 
@@ -115,6 +124,24 @@ def runs_of(text):
     return out
 
 
+def tagged(v):
+    """a JSON value in the transport form of the Lean driver (Driver/Redact.lean: jvOf); object entries in
+    serde_json's map order (keys sorted by their UTF-8 bytes)"""
+    if v is None: return ["z"]
+    if isinstance(v, bool): return ["b", v]
+    if isinstance(v, (int, float)): return ["n", json.dumps(v)]
+    if isinstance(v, str): return ["s", v]
+    if isinstance(v, list): return ["a", [tagged(x) for x in v]]
+    return ["o", [[k, tagged(x)] for k, x in sorted(v.items(), key=lambda kv: kv[0].encode("utf-8"))]]
+
+
+def json_strings(v):
+    if isinstance(v, str): return [v]
+    if isinstance(v, list): return [t for x in v for t in json_strings(x)]
+    if isinstance(v, dict): return [t for k, x in v.items() for t in [k] + json_strings(x)]
+    return []
+
+
 # ---------------------------------------------------------------- scenario material
 
 class Material:
@@ -126,8 +153,18 @@ class Material:
         self.canaries = {k: f"CN{tag}{k}" for k in ("User", "Asst", "Thnk", "Plan", "Tool", "Name")}
         # credentials the real classifier accepts (pre-classified pool)
         self.cred_text = [creds.pop(), creds.pop(), creds.pop()]
-        self.cred_tool = [creds.pop()]
+        # tool input: one in a string value (a shell command), one as an object KEY, one in a nested array of objects
+        self.cred_tool = [creds.pop(), creds.pop(), creds.pop()]
         self.texts = []          # every text message handed to git-ai (for the model prediction)
+        self.tool_inputs = []    # every tool input handed to git-ai
+
+    def tool_input(self):
+        c = self.canaries
+        v = {"command": f"export KEY={self.cred_tool[0]}; echo {c['Tool']}",
+             "env": {self.cred_tool[1]: "ключ", "timeout": 120000, "dry_run": False, "none": None},
+             "files": [{"path": "é.env", "content": f"TOKEN={self.cred_tool[2]}==\nPORT=3000\n"}, ["deep", [f"{self.cred_tool[2]}"]]]}
+        self.tool_inputs.append(v)
+        return v
 
     def transcript(self, k):
         c = self.canaries
@@ -136,7 +173,7 @@ class Material:
             {"type": "assistant", "text": f"{c['Asst']} done, é wrote it"},
             {"type": "thinking", "text": f"{c['Thnk']} the user pasted {self.cred_text[2]}"},
             {"type": "plan", "text": f"{c['Plan']} 1. edit 2. test"},
-            {"type": "tool_use", "name": c["Name"], "input": {"command": f"export KEY={self.cred_tool[0]}; echo {c['Tool']}"}},
+            {"type": "tool_use", "name": c["Name"], "input": self.tool_input()},
         ]
         for extra in range(k - 1):   # later checkpoints carry longer transcripts
             msgs.append({"type": "assistant", "text": f"{c['Asst']} follow-up {extra} for step {k}"})
@@ -153,7 +190,7 @@ class Material:
             {"type": "assistant", "message": {"role": "assistant", "model": "claude-test", "content": [
                 {"type": "thinking", "thinking": f"{c['Thnk']} the user pasted {self.cred_text[2]}"},
                 {"type": "text", "text": f"{c['Asst']} done"},
-                {"type": "tool_use", "id": "t1", "name": c["Name"], "input": {"command": f"export KEY={self.cred_tool[0]}; echo {c['Tool']}"}}]},
+                {"type": "tool_use", "id": "t1", "name": c["Name"], "input": self.tool_input()}]},
              "timestamp": "2025-01-01T00:00:01Z"},
         ]
         for extra in range(k - 1):
@@ -507,6 +544,7 @@ def run_scenario(path, cfgname, cfg, agent, seed, creds):
                         msgs.append({"blob": oid, "type": m.get("type"), "text": m.get("text"), "input": m.get("input")})
         obs["note_messages"] = msgs
         obs["texts"] = mat.texts
+        obs["tool_inputs"] = mat.tool_inputs
         obs["cred_text"], obs["cred_tool"] = mat.cred_text, mat.cred_tool
         obs["witness"] = {"path": path, "config": cfgname, "agent": agent, "patch": patch, "file_config": filecfg, "remote": remote}
     return obs
@@ -531,6 +569,16 @@ def model_redactions(texts, verdicts):
     return out
 
 
+def model_json_redactions(values, verdicts):
+    """tagged input (as JSON text) -> the model's tagged redaction"""
+    vs = [{"tok": k, "secret": v} for k, v in verdicts.items()]
+    reqs = [{"op": "rd_redact_json", "value": tagged(v), "verdicts": vs} for v in values]
+    out = {}
+    for v, r in zip(values, C.run_driver(reqs)):
+        out[json.dumps(tagged(v), sort_keys=True)] = r.get("ok", {}).get("value") if isinstance(r, dict) else None
+    return out
+
+
 def phase_e2e(res, tier, seed, name="e2e"):
     ok, out = C.build_git_ai()
     if not ok:
@@ -548,11 +596,11 @@ def phase_e2e(res, tier, seed, name="e2e"):
                 plan.append((p, c, "agent-v1"))
         plan += [(p, c, "claude") for p in paths for c in CONFIGS if (p, c, "claude") not in plan]
     # credentials: generate, keep those the real classifier flags
-    pool = gen_credentials(seed, 12 * len(plan) + 40)
+    pool = gen_credentials(seed, 18 * len(plan) + 60)
     verd = classify(pool)
     accepted = [t for t in pool if verd.get(t)]
     res.extra.setdefault("e2e", {})["credential_pool"] = {"generated": len(pool), "accepted_by_classifier": len(accepted)}
-    if len(accepted) < 4 * len(plan):
+    if len(accepted) < 6 * len(plan):
         res.broken_tie(f"{name}: credential generator", f"only {len(accepted)} of {len(pool)} generated credentials are flagged by is_random")
         return
     # model tie for the configuration table
@@ -563,7 +611,7 @@ def phase_e2e(res, tier, seed, name="e2e"):
             res.broken_tie(f"{name}: effectiveMode on config {cname}", {"model": mm, "documented": cfg[3]})
     creds_for = {}
     for k, item in enumerate(plan):
-        creds_for[item] = accepted[4 * k:4 * k + 4]
+        creds_for[item] = accepted[6 * k:6 * k + 6]
     results = []
     with concurrent.futures.ThreadPoolExecutor(16) as ex:
         futs = {ex.submit(run_scenario, p, c, configs[c], a, seed, list(creds_for[(p, c, a)])): (p, c, a) for (p, c, a) in plan}
@@ -573,7 +621,7 @@ def phase_e2e(res, tier, seed, name="e2e"):
             except Exception as e:
                 p, c, a = futs[f]
                 results.append({"path": p, "config": c, "agent": a, "errors": [f"runner: {e!r}"], "hits": [], "note_messages": [],
-                                "expected_mode": configs[c][3], "blobs": 0, "head_has_note": False, "texts": [], "cred_text": [], "cred_tool": [],
+                                "expected_mode": configs[c][3], "blobs": 0, "head_has_note": False, "texts": [], "tool_inputs": [], "cred_text": [], "cred_tool": [],
                                 "witness": {"path": p, "config": c, "agent": a}})
     # a scenario that did not reach its writer (timeout under load, ...) is retried once, alone
     for k, o in enumerate(results):
@@ -588,9 +636,11 @@ def phase_e2e(res, tier, seed, name="e2e"):
     results.sort(key=lambda o: (o["path"], o["config"], o["agent"]))
     # model prediction of the masked texts (notes mode)
     all_texts = sorted({t for o in results for t in o.get("texts", [])})
-    tokens = sorted({r for t in all_texts for r in runs_of(t) if 13 <= len(r) <= 92})
+    all_inputs = list({json.dumps(v, sort_keys=True): v for o in results for v in o.get("tool_inputs", [])}.values())
+    tokens = sorted({r for t in all_texts + [x for v in all_inputs for x in json_strings(v)] for r in runs_of(t) if 13 <= len(r) <= 92})
     v2 = classify(tokens)
     pred = model_redactions(all_texts, v2)
+    pred_json = model_json_redactions(all_inputs, v2)
     invalid, stash_tr = 0, 0
     for o in results:
         key = f"{o['path']}|{o['config']}|{o['agent']}"
@@ -620,7 +670,8 @@ def phase_e2e(res, tier, seed, name="e2e"):
                                        what=f"notes mode: a credential accepted by is_random is unmasked in a note after {o['path']}")
                 if h["what"] == "credential" and h["where"] == "tool_input":
                     res.oracle_failure("notes-mode:credential-in-tool-input-unmasked", dict(w, credential=h["value"]),
-                                       what="notes mode: credential inside a tool_use input is written unmasked")
+                                       what=f"notes mode: a credential inside a tool_use input (string value, object key or nested value) is written "
+                                            f"unmasked to a note after {o['path']}")
             # model tie: every text message in a note is the model's redaction of a text handed in
             allowed = {pred.get(t) for t in o["texts"]}
             for m in o["note_messages"]:
@@ -628,6 +679,19 @@ def phase_e2e(res, tier, seed, name="e2e"):
                     res.broken_tie(f"{name}: notes-mode message text vs model redaction ({key})",
                                    {"note_text": m["text"], "model_redactions": sorted(x for x in allowed if x)[:4]})
                     break
+            # model tie: every tool input in a note is the model's traversal of a tool input handed in
+            allowed_json = [pred_json.get(json.dumps(tagged(v), sort_keys=True)) for v in o.get("tool_inputs", [])]
+            tools_seen = 0
+            for m in o["note_messages"]:
+                if m.get("type") == "tool_use":
+                    tools_seen += 1
+                    if tagged(m.get("input")) not in allowed_json:
+                        res.broken_tie(f"{name}: notes-mode tool input vs model traversal ({key})",
+                                       {"note_input": m.get("input"), "model": allowed_json[:2]})
+                        break
+            if o.get("tool_inputs") and not tools_seen:
+                res.broken_tie(f"{name}: notes-mode scenario without a tool_use message in its notes ({key})", {"messages": len(o["note_messages"])})
+            res.tag([f"notes-tool-inputs={'yes' if tools_seen else 'no'}"])
             if not any(h["what"] == "canary" for h in o["hits"]):
                 res.tag(["notes-mode-without-transcript"])
     res.obligation(f"{name}: every scenario reached its note writer ({len(results) - invalid}/{len(results)})", invalid == 0, "correspondence")
@@ -909,7 +973,10 @@ def run(tier, seed):
     res.rule = ("in-process: one case = one request sent to both the real function and the Lean model "
                 "(effective_prompt_storage on Config values x scratch repositories with 0-3 remotes; PromptStorageMode::from_str; "
                 "extract_tokens / redact_secret / redact_secrets_in_text / redact_secrets_from_prompts / strip_prompt_messages on "
-                "generated texts with tokens at lengths 14/15/16/89/90/91, adjacent tokens, multi-byte neighbours, '=' padding; the "
+                "generated texts with tokens at lengths 14/15/16/89/90/91, adjacent tokens, multi-byte neighbours, '=' padding; "
+                "redact_secrets_in_json (through redact_secrets_from_prompts on one ToolUse message) on generated JSON values: depth 0-6 "
+                "and chains of 30-70 levels, unicode / empty / credential-like keys, keys and leaves at the window boundaries, numbers "
+                "with 18 digits, booleans, null, keys whose masked forms collide; values travel in a tagged exact form; the "
                 "real classifier's verdict per token travels in the request); end-to-end: one case = one (note-writing path, "
                 "prompt-storage configuration, agent kind) scenario on the real binary, oracle over every blob reachable from "
                 "refs/notes/ai; e2e-cas: one case = one (commit|amend, number of sessions, session without transcript, "
@@ -923,7 +990,8 @@ def run(tier, seed):
                    "vlib/props/c08.py scenarios and blob walk; vlib/e2e.py",
                    "glob::Pattern::matches and is_random are opaque inputs of the model (their real results travel in the requests)"]
     res.assumptions = ["the effective mode is fixed during a history (mode changes mid-history are out of scope)",
-                       "tool_use inputs are outside the masking theorems (the code does not redact them; reported as a finding)",
+                       "inside a tool_use input only strings (leaves and object keys) are masked: a credential stored as a JSON number, the "
+                       "tool NAME and message timestamps are never rewritten by the code (identifiers / metadata, outside the theorems)",
                        "to_lowercase modelled on ASCII letters (no other char lower-cases to a letter of default/notes/local)",
                        "the outcome of every enqueue_cas_object call, serde_json::to_value and of opening the database is an input of "
                        "the model (any vector); sqlite itself is not modelled",
